@@ -135,8 +135,9 @@ QuietCheck(st, t) ==
   ELSE IF On("C08") /\ silentSince >= 0 /\ ~ownerClosed /\ t >= silentSince + PingDetect /\ st # 4 THEN "C08.closed"
   ELSE IF On("C08") /\ silentSince >= 0 /\ ~ownerClosed /\ t >= silentSince + PingDetect /\ ~everFaulted THEN "C08.signal"
   ELSE "ok"
-\* stray frames stay matchable while a handed-in request has not been written yet (blocked writes)
-QuietUpd(st, t) == /\ tclock' = t /\ recent' = {} /\ stray' = (IF nreq > written THEN stray ELSE {})
+\* every frame read so far has been processed by now: the excuse of a stray frame ends here, also for requests
+\* that are still waiting in the send queue (a client can tell that such a request has not been answered)
+QuietUpd(st, t) == /\ tclock' = t /\ recent' = {} /\ stray' = {}
                    /\ UNCHANGED <<reqs, delivered, failed, preFail, errOnly, ownerClosed, signalled, everFaulted, silentSince, beforeSilence, unanswered, qtags, held, peak, aged, maxTag, written, nreq>>
 
 \* The driver issues a probe only when the transport reports Open with nothing in flight.
@@ -183,9 +184,11 @@ FrameInUpd(type, tag, t) ==
   /\ unanswered' = IF IsAnswer(type) THEN unanswered \ {tag} ELSE unanswered
   /\ recent' = IF tag \in held THEN recent \cup {tag} ELSE recent
   /\ held' = held \ {tag}
-  \* a frame naming a tag that a handed-in, not yet written request holds cannot be the answer to that
-  \* request (the peer has not seen it): it is no excuse for that request's tag being in use twice later
-  /\ stray' = IF tag \notin unanswered /\ tag \notin qtags THEN stray \cup {tag} ELSE stray
+  \* a frame naming a tag no written request carries: if a request with that tag is written before the next
+  \* quiescent point the client may have processed the frame after that write (indistinguishable from the
+  \* answer); once a quiescent point has passed, every frame read before it has been processed - a request
+  \* that was still queued then (its tag is in qtags) cannot have been answered by it
+  /\ stray' = IF tag \notin unanswered THEN stray \cup {tag} ELSE stray
   /\ UNCHANGED <<reqs, delivered, failed, preFail, errOnly, ownerClosed, signalled, everFaulted, silentSince, beforeSilence, qtags, peak, aged, maxTag, written, nreq>>
 
 \* tag consumption is bounded by peak concurrency (+ requests that never reached the wire)
